@@ -400,6 +400,56 @@ impl Family for PromoFam {
     }
 }
 
+/// PROMOX: a white pawn on its 7th rank on every file whose push is BLOCKED (an own queen / knight or
+/// an enemy rook / knight / queen / bishop stands in front of it) and which can capture an enemy
+/// rook, queen or knight on one side; both kings anywhere; one more white and one more black piece of
+/// every kind anywhere; both sides to move. The only promotion is a capture, on the edge files towards
+/// the centre; with the extra pieces there are lines in which promoting later is better than at once.
+pub struct PromoX;
+impl Family for PromoX {
+    fn name(&self) -> String {
+        "PROMOX".into()
+    }
+    fn len(&self) -> u64 {
+        64 * 64 * 64 * 4 * 64 * 4 * 8 * 6 * 2 * 3 * 2
+    }
+    fn decode(&self, mut i: u64) -> Option<Pos> {
+        let mut take = |n: u64| -> u64 {
+            let v = i % n;
+            i /= n;
+            v
+        };
+        let wk = take(64) as u8;
+        let bk = take(64) as u8;
+        let x = take(64) as u8;
+        let xkind = [QUEEN, ROOK, BISHOP, KNIGHT][take(4) as usize];
+        let y = take(64) as u8;
+        let ykind = [QUEEN, ROOK, BISHOP, KNIGHT][take(4) as usize];
+        let f = take(8) as i8;
+        let front = [pc(WHITE, QUEEN), pc(WHITE, KNIGHT), pc(BLACK, ROOK), pc(BLACK, KNIGHT), pc(BLACK, QUEEN), pc(BLACK, BISHOP)][take(6) as usize];
+        let side = if take(2) == 0 { -1i8 } else { 1 };
+        let victim = [ROOK, QUEEN, KNIGHT][take(3) as usize];
+        let stm = take(2) as u8;
+        let mut p = Pos::empty();
+        p.board[sq_at(f, 1)? as usize] = pc(WHITE, PAWN);
+        p.board[sq_at(f, 0)? as usize] = front;
+        p.board[sq_at(f + side, 0)? as usize] = pc(BLACK, victim);
+        for (sq, piece) in [(wk, pc(WHITE, KING)), (bk, pc(BLACK, KING)), (x, pc(WHITE, xkind)), (y, pc(BLACK, ykind))] {
+            if p.board[sq as usize] != EMPTY {
+                return None;
+            }
+            p.board[sq as usize] = piece;
+        }
+        p.stm = stm;
+        p.full = 30;
+        if p.is_legal_position() {
+            Some(p)
+        } else {
+            None
+        }
+    }
+}
+
 /// EDGE5: wrap-around geometry. White king on the a- or h-file, a black pawn or knight on the
 /// opposite edge file, a black checker-capable piece anywhere, a white defender anywhere, black
 /// king anywhere; white to move. (Bit-shift based attack code can leak across the board edge; no
